@@ -314,10 +314,11 @@ MANIFEST = {
                    "from scratch, single-attribute proxy pairs on generated meshes) and writer coherence of processRequest / "
                    "pushConnection / debug config dump (stream writers, sequential schedules only, entry points through "
                    "pilot/pkg/xds/zz_verif_c06.go). Goroutine races between the real writers and initPushContext are only explored by a stress "
-                   "run with passive probes (statistical). Assumed: strictly increasing wall clock, ConfigKey hash injective. Three "
+                   "run with passive probes (statistical). Assumed: strictly increasing wall clock, ConfigKey hash injective. GenLocal (DependentConfigs names everything "
+                   "generation reads; every accepted change reaches Clear) is a hypothesis validated by stream writers only. Five "
                    "defects found by these streams were fixed in /repo (SDS key vs mesh-default private key provider; debug config "
                    "dump pairing LastPushContext with time.Now(); F8: ProxyUpdate/AdsPushAll pairing the global context with a clock "
-                   "read unsynchronised with cache invalidation + publication)."),
+                   "read unsynchronised with cache invalidation + publication; EDS key and RDS key without the proxy's IP family)."),
     "technique": "Lean 4 theorems (induction over arbitrary op sequences) over an exact model of the cache state machine + differential correspondence with the real Go cache + property oracle with exhaustive small-interleaving enumeration + differential validation of the proof's hypotheses on the real generators",
     "design_ref": "DESIGN.md section 5 C06",
 }
